@@ -67,7 +67,27 @@ NOT_INPUT = {
 }
 
 # (origin function, class, origin text) - finer than NOT_INPUT where the same call shape also occurs with input
+def text_encoding_guard(model):
+    """Does DataFormat.set_property refuse encodings that are no text encodings?  Recognised form: a trial ``"".encode(value)``
+    (or ``.decode``) of the cell inside a handler that turns LookupError into an InterfaceError."""
+    info = model.functions.get("cutplace.data.DataFormat.set_property")
+    if info is None:
+        return False
+    for node in walk_own(info.node):
+        if isinstance(node, ast.Try):
+            trial = any(isinstance(call, ast.Call) and isinstance(call.func, ast.Attribute) and call.func.attr in ("encode", "decode")
+                        and isinstance(call.func.value, ast.Constant) and call.args and isinstance(call.args[0], ast.Name)
+                        for inner in node.body for call in ast.walk(inner))
+            catches = any(handler.type is not None and "LookupError" in ast.unparse(handler.type) for handler in node.handlers)
+            if trial and catches:
+                return True
+    return False
+
+
 NOT_INPUT_SITES = {
+    ("data.DataFormat.encoding@setter", "builtins.ValueError", "codecs.lookup(encoding)"):
+        "set_property has tried the value as a text encoding before it assigns it (LookupError and ValueError refused there); other "
+        "callers pass constants",
     ("fields.PatternFieldFormat.__init__", "re.error", "re.compile(self.pattern, re.IGNORECASE | re.MULTILINE)"):
         "self.pattern is the output of fnmatch.translate, which escapes everything it does not understand",
     ("fields.PatternFieldFormat.__init__", "builtins.OverflowError", "re.compile(self.pattern, re.IGNORECASE | re.MULTILINE)"):
@@ -219,6 +239,8 @@ def rule_escapes(ctx):
                 ctx.res.ok("O10", obligation, True, {"chain": _chain_text(item)} if len(ctx.res.samples) < 6 else None)
                 continue
             reason = NOT_INPUT.get((origin_function, item.cls)) or NOT_INPUT_SITES.get((origin_function, item.cls, item.origin[2]))
+            if reason is None and item.cls == "builtins.LookupError" and item.origin[2].startswith(("io.open(", "open(")) and text_encoding_guard(model):
+                reason = "the encoding is a property of the data format, and set_property refuses everything that is no text encoding"
             if reason is not None:
                 ctx.res.ok("O10", obligation + " (not input-dependent: %s)" % reason, True)
                 continue
